@@ -605,6 +605,9 @@ def run(ctx, rep):
     from . import c06
 
     c06.rule_iterloop(ctx, rep)  # lying iterators: the fill loop stores every item it takes, or panics
+    from . import c05 as _c05
+
+    _c05.rule_layout(ctx, rep)  # ... into a block that really has room for the reported number of items (or the constructor panicked): the requested layout, evaluated on the shape matrix of each target width
     c06.rule_init(ctx, rep)  # what unwinding may drop: a handle typed as initialised exists only once every slot is written
     from . import c10
 
